@@ -164,6 +164,36 @@ def check_mixed_classes(costs, rot):
     return []
 
 
+def check_after_aborted_sort(costs, bad_pos, variant):
+    """One member carries a broken cost vector (None, or a vector of another length): the sort raises. The caller repairs the
+    member and sorts again: ranks by definition, nothing left over from the aborted attempt."""
+    from artap.individual import Individual
+    Individual.counter = 0
+    pop = []
+    for c in costs:
+        ind = Individual([0.0])
+        ind.costs_signed = list(c)
+        pop.append(ind)
+    good = list(pop[bad_pos].costs_signed)
+    pop[bad_pos].costs_signed = [None] + good[1:] if variant == "none" else good[:-2] + good[-1:]
+    sel = selector()
+    try:
+        sel.fast_nondominated_sorting(pop)
+    except Exception:
+        pass
+    pop[bad_pos].costs_signed = good
+    try:
+        sel.fast_nondominated_sorting(pop)
+    except Exception as e:
+        return [("C02:after-aborted-sort:exception:%s" % type(e).__name__, "sorting the repaired population %r raised %r" % (costs, e))]
+    _KEEP.append(pop)
+    got = [p.features.get('front_number') for p in pop]
+    exp = ref_ranks(list(costs))
+    if got != exp:
+        return [("C02:after-aborted-sort:rank", "costs %r (member %d was broken during a first, aborted sort): front numbers %r, definition %r" % (costs, bad_pos, got, exp))]
+    return []
+
+
 def check_option_selector(costs, variant):
     """The sorter of selectors built with constructor options ranks by constrained Pareto dominance like any other."""
     from artap.individual import Individual
@@ -259,6 +289,18 @@ def _shard(shard, col: Collector):
                             col.violation(key, "copies", msg, {"costs_a": costs_a, "extra": extra, "how": how})
         col.sample({"kind": "sorted population, then its copies sorted with newcomers", "how": how, "first": list(first)}, 1)
         return
+    if shard[0] == "aborted":
+        alpha = alphabet("V3x2F")[1::2]
+        for n in (2, 3, 4):
+            for costs in itertools.product(alpha, repeat=n):
+                for bad_pos in range(n):
+                    for variant in ("none", "short"):
+                        col.case()
+                        col.nontrivial(("aborted", costs, bad_pos, variant))
+                        for key, msg in check_after_aborted_sort(costs, bad_pos, variant):
+                            col.violation(key, "aborted", msg, {"costs": costs, "bad_pos": bad_pos, "variant": variant})
+        col.sample({"kind": "sort aborted by a broken member, repaired, sorted again"}, 1)
+        return
     if shard[0] == "mixedcls":
         _, rot = shard
         alpha = alphabet("V3x2F")
@@ -333,6 +375,8 @@ def replay(sub, case):
         return check_case(costs if case["order"] == "as-listed" else costs[::-1])
     if sub == "copies":
         return check_copies(tuple(tuple(c) for c in case["costs_a"]), tuple(tuple(c) for c in case["extra"]), case["how"])
+    if sub == "aborted":
+        return check_after_aborted_sort(tuple(tuple(c) for c in case["costs"]), case["bad_pos"], case["variant"])
     if sub == "mixedcls":
         return check_mixed_classes(tuple(tuple(c) for c in case["costs"]), case["rot"])
     if sub == "optsel":
@@ -390,6 +434,7 @@ def run(tier, seed):
             shards.append(("big", n))
     for rot in range(5):
         shards.append(("mixedcls", rot))
+    shards.append(("aborted",))
     col = run_shards(_shard, shards)
     posets = {1: 1, 2: 3, 3: 19, 4: 219, 5: 4231}
     realised = {k: len(v) + 1 for k, v in col.sets.items() if k.startswith("rel_n")}  # +1: the empty relation
